@@ -301,6 +301,7 @@ fn init_process() {
     alloc::init();
     crash::install();
     sched::install();
+    sched::install_trap_handler();
 }
 
 /// `worker --prop P --tier T --seed S --wid I --workers W --runs N --deadline-ms D [--emit-runs] [--first IDX]`
